@@ -74,11 +74,14 @@ func checkC08(t *testing.T, job *Job, res *Result) {
 				scs = append(scs, c08FirstRequests(pre, cmd))
 			}
 		}
+		for _, second := range []string{"stop", "pause"} {
+			scs = append(scs, c08OverlappingStops(second))
+		}
 		b := Bounds{D: 2, S: 0}
 		runS(t, job, res, "C08", withReversed(scs), b, 0)
 	}
 	res.Engine = "S+H"
-	res.Rule += "; stop/pause racing with the first requests after a deploy or a resume; afterwards every request must meet the closed gate"
+	res.Rule += "; stop/pause racing with the first requests after a deploy or a resume; afterwards every request must meet the closed gate; a stop whose drain is still waiting for a request that never finishes overlapped by a second stop/pause from another operator, then resume: the message of the later stop is shown while stopped and forwarding is restored by the resume"
 	res.Rule += "; engine S part: stop/resume/pause completing while the same service is being redeployed (from running, stopped, paused), every schedule with <=2 thread deviations; afterwards requests and list must show the state the gate command set"
 }
 
@@ -170,6 +173,75 @@ func c08FirstRequests(pre, cmd string) *Scenario {
 		// (paused: the requests are held; they are answered 504 when their max-pause expires during teardown)
 		if health == nil || health.Status != 200 || health.ServedBy() != "" {
 			vs = append(vs, Violation{"C08", "health-check-GET-not-answered-by-proxy", fmt.Sprint(health != nil && health.Done)})
+		}
+		return vs
+	}
+	return sc
+}
+
+// c08OverlappingStops: stop("one") is still draining a request that never finishes when another operator issues
+// stop("two") (or pause) with a longer drain timeout; after both returned the service is resumed.
+func c08OverlappingStops(second string) *Scenario {
+	sc := &Scenario{Name: "C08-S overlapping stop || " + second + " then resume", Horizon: 60 * time.Second}
+	const host = "a.example.com"
+	var during, after1, after2 *ReqObs
+	sc.Run = func(w *World) {
+		during, after1, after2 = nil, nil, nil
+		w.AddTarget("oa:80")
+		if r := w.Deploy(deployArgs("s1", []string{"oa:80"}, []string{host}, nil)); r.Err != nil {
+			w.Note("setup: %v", r.Err)
+			return
+		}
+		time.Sleep(100 * time.Millisecond)
+		vsched.GoTagged("client", func() { w.Do(ReqSpec{ID: "inflight", Host: host, Path: "/", Plan: "hang"}) })
+		time.Sleep(100 * time.Millisecond)
+		var wg vsync.WaitGroup
+		w.S.SetWindow(true)
+		wg.Add(2)
+		vsched.GoTagged("cmd", func() {
+			defer wg.Done()
+			w.Stop("s1", vD, "one")
+		})
+		vsched.GoTagged("cmd", func() {
+			defer wg.Done()
+			time.Sleep(300 * time.Millisecond)
+			if second == "stop" {
+				w.Stop("s1", 2*vD, "two")
+			} else {
+				w.Pause("s1", 2*vD, 20*time.Second)
+			}
+		})
+		wg.Wait()
+		w.S.SetWindow(false)
+		if second == "stop" {
+			during = w.Do(ReqSpec{ID: "during", Host: host, Path: "/x"})
+		}
+		// resume right away: no health probe falls between the end of the drains and the resume
+		w.Resume("s1")
+		after1 = w.Do(ReqSpec{ID: "after1", Host: host, Path: "/x"})
+		time.Sleep(2500 * time.Millisecond)
+		after2 = w.Do(ReqSpec{ID: "after2", Host: host, Path: "/x"})
+	}
+	sc.Check = func(w *World) []Violation {
+		var vs []Violation
+		for _, n := range w.Notes {
+			vs = append(vs, Violation{"C08", "setup", n})
+		}
+		for _, cm := range w.Cmds {
+			if cm.Err != nil {
+				vs = append(vs, Violation{"C08", "command-failed", cm.Name + ": " + cm.Err.Error()})
+			}
+		}
+		if len(vs) > 0 || after1 == nil || after2 == nil {
+			return vs
+		}
+		if during != nil && !(during.Status == 503 && strings.Contains(string(during.Body), "two")) {
+			vs = append(vs, Violation{"C08", "stop-message-missing-or-not-escaped", fmt.Sprintf("after stop(one) overlapped by stop(two), a request got %s", during.Summary())})
+		}
+		for _, r := range []*ReqObs{after1, after2} {
+			if !(r.Status == 200 && r.ServedBy() == "oa:80") {
+				vs = append(vs, Violation{"C08", "resume-does-not-restore-forwarding", fmt.Sprintf("after overlapping stop/%s and resume, request %s got %s (sites %v)", second, r.ID, r.Summary(), r.Sites)})
+			}
 		}
 		return vs
 	}
